@@ -231,6 +231,11 @@ func init() {
 			for _, m := range []string{"none", "bloom1", "bloom10", "bloom64", "b10-then-none", "b10-then-b64alt", "b10-then-b1noalt"} {
 				specs = append(specs, seqSpec{Cfg: "flushy/bytewise", Alpha: c01Alpha, Depth: depth, Checks: "db", Mode: m})
 			}
+			// older versions kept for snapshots live in the same table as newer ones, possibly in
+			// another filter partition: snapshot reads must not depend on the filter either
+			for _, m := range []string{"none", "bloom10", "b10-then-b64alt"} {
+				specs = append(specs, seqSpec{Cfg: "flushy/bytewise", Alpha: c03Alpha, Depth: depth + 1, Checks: "db,views", Mode: m})
+			}
 			specs = append(specs, seqSpec{Cfg: "wide/bytewise", Alpha: c01Alpha, Depth: depth, Checks: "db", Mode: "bloom1"},
 				seqSpec{Cfg: "wide/bytewise", Alpha: c01Alpha, Depth: depth, Checks: "db", Mode: "b10-then-b64alt"})
 			layouts := map[string]int{}
